@@ -6,7 +6,7 @@ every seed (git checkout -- .)."""
 import glob, json, os, re, subprocess, sys
 ROOT = os.path.dirname(os.path.dirname(os.path.abspath(__file__)))
 # other properties whose check is expected to notice a seed aimed elsewhere (shared code)
-EXTRA = {"C03-a": ["C10"], "C18-a": ["C08"], "C13-b": ["C15"], "C15-a": ["C15"]}
+EXTRA = {"C03-a": ["C10"], "C18-a": ["C08"], "C13-b": ["C15"], "C15-a": ["C15"], "C20-c": ["C15"], "C20-b": ["C15"]}
 
 
 def sh(cmd, cwd=None):
@@ -18,7 +18,9 @@ def clean():
 
 
 def run_check(prop):
-    r = sh([sys.executable, os.path.join(ROOT, "tools", "check.py"), prop, "--tier", "quick"], cwd=ROOT)
+    env = dict(os.environ, VERIF_EVIDENCE_DIR=os.path.join(ROOT, "seeded", ".evidence"))
+    r = subprocess.run([sys.executable, os.path.join(ROOT, "tools", "check.py"), prop, "--tier", "quick"], cwd=ROOT,
+                       capture_output=True, text=True, env=env)
     out = r.stdout + r.stderr
     m = re.search(r"VIOLATION property=(\S+) replay=(\S+)( no-failing-input-found)?", out)
     if not m:
